@@ -562,7 +562,7 @@ class NNDVIDriver(Driver):
     def make(self):
         c = self.ctx
         if not hasattr(self, "params"):
-            self.params = dict(k_nn=2, sampling_times=2, alpha=c.real("alpha"))
+            self.params = dict(k_nn=2, sampling_times=self.cfg.get("sampling_times", 2), alpha=c.real("alpha"))
         d = self.M.NNDVI(**self.params)
         calls = self.thr_calls
 
